@@ -169,6 +169,12 @@ def evaluate(sc: dict):
                     lims = {"heat": [heat], "cool": [cool], "auto_heat": [heat, union], "auto_cool": [cool, union]}.get(status["mode"], [union])
                 else:
                     lims = [(a["min_sp"], a["max_sp"])]
+                if st["call"] == "set_target_temperature":
+                    # "clamped into the current [min, max]": the limits the object itself advertised at the moment of the call
+                    # decide, provided they are among the admissible readings (if not, C10 reports the getter)
+                    adv = next((e for e in w.trace.events[c["seq_call"] + 1: c["seq_call"] + 3] if e[2] == "user.advertised_limits"), None)
+                    if adv is not None and any(abs(adv[3]["lo"] - lo) < 1e-9 and abs(adv[3]["hi"] - hi) < 1e-9 for (lo, hi) in lims):
+                        lims = [(lo, hi) for (lo, hi) in lims if abs(adv[3]["lo"] - lo) < 1e-9 and abs(adv[3]["hi"] - hi) < 1e-9]
                 ctx = {"ac": a, "status": status, "timer": m.timer.get(tgt[1]), "limits": lims}
         elif tgt[0] == "zone":
             z = m.zone_status.get(tgt[1])
